@@ -202,6 +202,13 @@ func (c *c19env) check(name string, f *ssa.Function, withSummaries bool, setup f
 				po.script = "false"
 			}
 			where := po.where
+			// read back every declared symbol (stubs declare symbols that the parameter generator does not know)
+			po.names = po.names[:0]
+			for _, d := range pa.Decls {
+				if f := strings.Fields(d); len(f) >= 2 && f[0] == "(declare-const" {
+					po.names = append(po.names, f[1])
+				}
+			}
 			r.Add(&Ob{Name: fmt.Sprintf("copy-faithful[%s] path %d", name, pi), Family: "deserialize-copy", Script: pa.Script(po.script), Site: "deserialization: " + name, Bound: fmt.Sprintf("%s: lists up to %d (leaf helpers up to %d) elements", name, c.listB, c.leafB), Values: po.names, TO: 60 * time.Second,
 				OnFail: func(res smt.Result) *Violation {
 					if replay == nil {
